@@ -16,14 +16,11 @@ import (
 // (decided on the reference model before the engine sees it) is dropped from the history and
 // counted in excluded_known; the replay witnesses re-confirm each finding.
 const (
-	fRollback    = "C23-trigger-effects-survive-failure"  // F8: audit/counter writes of fired triggers stay when the statement fails later
-	fOdku        = "C23-odku-update-triggers"             // ODKU on an existing key: UPDATE triggers do not fire, AFTER INSERT fires with the old row
-	fReplaceNew  = "C23-replace-after-insert-new"         // REPLACE: AFTER INSERT sees a wrong NEW row
-	fOrder       = "C23-trigger-order-clauses"            // two or more FOLLOWS/PRECEDES clauses on one event: triggers run twice / not at all / in the wrong order
-	fAfterFail   = "C23-after-trigger-failure-keeps-rows" // a SIGNAL in an AFTER trigger fails the statement but its row changes on t stay
-	fDropRefd    = "C23-drop-referenced-trigger"          // dropping a trigger that another one FOLLOWS/PRECEDES
-	fIfSetNew    = "C23-conditional-set-new"              // IF ... THEN SET NEW.x ... inside a trigger block
-	fSetNewOrder = "C23-set-new-visibility"               // later triggers / statements do not see an earlier SET NEW
+	fRollback   = "C23-trigger-effects-survive-failure"  // F8: audit/counter writes of fired triggers stay when the statement fails later
+	fOdku       = "C23-odku-update-triggers"             // ODKU on an existing key: UPDATE triggers do not fire, AFTER INSERT fires with the old row
+	fReplaceNew = "C23-replace-after-insert-new"         // REPLACE: AFTER INSERT sees a wrong NEW row
+	fOrder      = "C23-trigger-order-clauses"            // two or more FOLLOWS/PRECEDES clauses on one event: triggers run twice / not at all / in the wrong order
+	fAfterFail  = "C23-after-trigger-failure-keeps-rows" // a SIGNAL in an AFTER trigger fails the statement but its row changes on t stay
 )
 
 // ---------------------------------------------------------------------------------------
@@ -39,7 +36,7 @@ func (g *gen) chance(pct int, name string) bool {
 }
 
 func (g *gen) smallVal(name string) val {
-	if g.chance(12, name+"null") {
+	if g.chance(8, name+"null") {
 		return nullV()
 	}
 	return intV(int64(rapid.IntRange(-3, 6).Draw(g.rt, name)))
@@ -188,14 +185,28 @@ func (g *gen) order() string {
 	return rapid.SampledFrom([]string{"", "", "ASC", "DESC"}).Draw(g.rt, "order")
 }
 
-func (g *gen) statement(hasDeleteTrig bool) dml {
+func (g *gen) statement(hasDeleteTrig bool, events []string) dml {
 	k := rapid.IntRange(0, 9).Draw(g.rt, "dml")
+	if len(events) > 0 && g.chance(60, "triggered") {
+		// prefer a statement kind whose event has triggers
+		switch rapid.SampledFrom(events).Draw(g.rt, "ev") {
+		case "INSERT":
+			k = rapid.IntRange(0, 5).Draw(g.rt, "dmli")
+		case "UPDATE":
+			k = rapid.IntRange(6, 7).Draw(g.rt, "dmlu")
+			if g.chance(25, "viaodku") {
+				k = 0
+			}
+		default:
+			k = 8
+		}
+	}
 	switch {
 	case k <= 4:
 		d := dInsert{}
 		n := rapid.IntRange(1, 4).Draw(g.rt, "nrows")
 		for i := 0; i < n; i++ {
-			d.rows = append(d.rows, row{id: int64(rapid.IntRange(0, 7).Draw(g.rt, "id")), a: g.smallVal("a"), b: g.smallVal("b")})
+			d.rows = append(d.rows, row{id: int64(rapid.IntRange(0, 11).Draw(g.rt, "id")), a: g.smallVal("a"), b: g.smallVal("b")})
 		}
 		d.noB = g.chance(25, "nob")
 		switch m := rapid.IntRange(0, 9).Draw(g.rt, "mode"); {
@@ -296,7 +307,7 @@ func drawCase(rt *rapid.T, st *stats.Collector) *tcase {
 	c := &tcase{}
 	used := map[int64]bool{}
 	for i, n := 0, rapid.IntRange(0, 5).Draw(rt, "ninit"); i < n; i++ {
-		id := int64(rapid.IntRange(0, 7).Draw(rt, "initid"))
+		id := int64(rapid.IntRange(0, 11).Draw(rt, "initid"))
 		if used[id] {
 			continue
 		}
@@ -309,8 +320,10 @@ func drawCase(rt *rapid.T, st *stats.Collector) *tcase {
 	names := rapid.Permutation(trigNames).Draw(rt, "names")
 	var trigs []*trig
 	ntr := rapid.IntRange(0, 4).Draw(rt, "ntrig")
+	nextName := 0
 	for i := 0; i < ntr; i++ {
-		t := g.trigger(names[i], trigs)
+		t := g.trigger(names[nextName], trigs)
+		nextName++
 		trigs = append(trigs, t)
 		c.steps = append(c.steps, step{create: t})
 	}
@@ -325,12 +338,35 @@ func drawCase(rt *rapid.T, st *stats.Collector) *tcase {
 	nst := rapid.IntRange(1, 4).Draw(rt, "nstmts")
 	for i := 0; i < nst; i++ {
 		// occasionally another trigger arrives in the middle of the history
-		if len(trigs) < 6 && g.chance(15, "latetrigger") {
-			t := g.trigger(names[len(trigs)], trigs)
+		if nextName < len(names) && len(trigs) < 6 && g.chance(15, "latetrigger") {
+			t := g.trigger(names[nextName], trigs)
+			nextName++
 			trigs = append(trigs, t)
 			c.steps = append(c.steps, step{create: t})
 		}
-		c.steps = append(c.steps, step{stmt: g.statement(hasDel())})
+		// ... or one is dropped (MySQL keeps the activation order of the remaining ones)
+		if len(trigs) > 0 && g.chance(8, "drop") {
+			i := rapid.IntRange(0, len(trigs)-1).Draw(rt, "dropidx")
+			referenced := false
+			for _, o := range trigs {
+				if o.ref == trigs[i].name {
+					referenced = true
+				}
+			}
+			if referenced {
+				// the engine refuses to drop a trigger that another one names in FOLLOWS/PRECEDES
+				// (MySQL allows it); an explicit rejection, outside this property - see notes
+				st.Class("skip-drop-of-referenced-trigger")
+			} else {
+				c.steps = append(c.steps, step{drop: trigs[i].name})
+				trigs = append(trigs[:i:i], trigs[i+1:]...)
+			}
+		}
+		var events []string
+		for _, t := range trigs {
+			events = append(events, t.event)
+		}
+		c.steps = append(c.steps, step{stmt: g.statement(hasDel(), events)})
 	}
 	return c
 }
@@ -434,6 +470,14 @@ func runCase(c *tcase, st *stats.Collector, fatal func(string, ...any)) {
 				return
 			}
 			m.addTrigger(s.create)
+			executed = append(executed, s.sql())
+			continue
+		}
+		if s.drop != "" {
+			if r := e.s.Exec(s.sql()); !r.OK() {
+				fatal("DROP TRIGGER failed: %s%s", r, "\n"+c.script(si))
+			}
+			m.dropTrigger(s.drop)
 			executed = append(executed, s.sql())
 			continue
 		}
